@@ -91,6 +91,10 @@ func isDefaultFunctionType(typ reflect.Type) bool {
 
 func makeConstantFunction(typ reflect.Type, arg any) reflect.Value {
 	return reflect.MakeFunc(typ, func(args []reflect.Value) []reflect.Value {
+		if arg == nil {
+			// as for the other parameters, nil is the zero value ("" rather than the text "<nil>")
+			return []reflect.Value{reflect.Zero(typ.Out(0))}
+		}
 		return []reflect.Value{reflect.ValueOf(MustConvert(arg, typ.Out(0)))}
 	})
 }
